@@ -26,24 +26,30 @@ LEVEL_TEXT = ('For packages with 2..5 (quick) / 2..9 (thorough) wavelengths ever
               'for every chunk size; an empty window must produce no file and no crash. Cube packages are loaded with wavelength filters at, near, between and outside the '
               'tabulated wavelengths and must deliver the slice at a nearest tabulated wavelength.')
 LEVEL_NOTE = ('A window end that coincides with a tabulated wavelength may include or exclude it; a requested wavelength exactly midway between two tabulated ones may select either. '
-              'Deviation-bounded (<=2) over n_ap, n_models, parameter-table permutation and spectral order; exhaustive over chunk sizes and windows inside each. Package files '
+              'Deviation-bounded (<=2 for up to 3 wavelengths, <=1 above in the quick tier) over n_ap, n_models, parameter-table permutation, spectral order, file layout and stored flux unit; exhaustive over chunk sizes and windows inside each. Package files '
               'written and result files read with astropy.io.fits directly.')
 RULE = ("cases: package configurations; executions: one call per (chunk size, window), one evaluation per file checked; a state is (configuration, window, chunk); non-trivial = distinct "
         "(configuration, window, chunk) whose window holds at least one wavelength and whose chunk size is smaller than the number of wavelengths in the window or divides it")
 ASSUMPTIONS = ["all SED files of a package share one wavelength grid", "window ends exactly on a tabulated wavelength are ambiguous"]
 REQUIRED_CLASSES = ['chunk-divides-range', 'chunk-does-not-divide-range', 'chunk==1', 'single-wavelength-window', 'empty-window', 'default-window', 'window-end-on-wavelength',
-                    'permuted-parameter-table', 'multi-aperture', 'sed-files-wav-ascending', 'seds-in-subdirs-and-gz', 'cube-nearest', 'cube-midway', 'cube-outside', 'cube-wavelength-in-other-unit']
+                    'permuted-parameter-table', 'multi-aperture', 'sed-files-wav-ascending', 'seds-in-subdirs-and-gz', 'seds-stored-in-erg/cm2/s', 'cube-nearest', 'cube-midway', 'cube-outside', 'cube-wavelength-in-other-unit']
 TIMEOUT = {'quick': 600, 'thorough': 3000}
 
 
 def setup(tier, seed):
     nmax = 5 if tier == 'quick' else 9
-    axes = {'n_ap': [2, 1, 3], 'n_models': [3, 1, 5], 'perm': ['identity', 'reversed', 'rotated'], 'sord': ['wav-desc', 'wav-asc'], 'layout': ['flat', 'subdir+gz']}
+    axes = {'n_ap': [2, 1, 3], 'n_models': [3, 1, 5], 'perm': ['identity', 'reversed', 'rotated'], 'sord': ['wav-desc', 'wav-asc'], 'layout': ['flat', 'subdir+gz'], 'funit': ['mJy', 'erg/cm2/s']}
     out = []
     for n_wav in range(2, nmax + 1):
-        for c in deviation_bounded(axes, 1 if (tier == 'quick' or n_wav > 6) else 2):
+        for c in deviation_bounded(axes, 2 if (n_wav <= 3 or (tier == 'thorough' and n_wav <= 6)) else 1):
             if c['n_models'] == 1 and c['perm'] != 'identity':
                 continue
+            if tier == 'quick':
+                dev = [k for k in axes if c[k] != axes[k][0]]
+                if n_wav == 3 and len(dev) == 2 and not set(dev) <= {'sord', 'funit', 'layout'}:
+                    continue          # quick: pairs of deviations for 3 wavelengths only among the file-level axes
+                if n_wav == 5 and len(dev) == 1 and dev[0] not in ('sord', 'funit'):
+                    continue
             parts = 1 if n_wav <= 3 else (3 if n_wav == 4 else 6 if n_wav <= 6 else 12)
             for wp in range(parts):          # the windows of one configuration are spread over several cases
                 cc = dict(c)
@@ -98,7 +104,10 @@ def run_case(ctx, case, rec, d):
     for m, nm in enumerate(names):
         fl = np.array([[cell(m, a, int(np.argmin(np.abs(w_asc - w)))) for w in wav_file] for a in range(n_ap)])
         lay = case.get('layout', 'flat')
-        pkgwriter.write_sed_file(md, nm, wav_file, fl, fl / 8.0, apertures_au=ap, subdir=(nm[:6] if lay != 'flat' and m % 2 else None), gz=(lay != 'flat' and m != 1))
+        if case.get('funit', 'mJy') != 'mJy':
+            # stored as nu*F_nu in erg/cm^2/s: the monochromatic 'convolution' must hand back F_nu in mJy all the same
+            fl = fl * 1e-26 * (pkgwriter.C_M_S / (np.asarray(wav_file) * 1e-6))[None, :]
+        pkgwriter.write_sed_file(md, nm, wav_file, fl, fl / 8.0, unit='mJy' if case.get('funit', 'mJy') == 'mJy' else 'erg s-1 cm-2', apertures_au=ap, subdir=(nm[:6] if lay != 'flat' and m % 2 else None), gz=(lay != 'flat' and m != 1))
     table_order = [names[i] for i in perm]
     if perm != sorted(perm):
         rec.cls('permuted-parameter-table')
@@ -108,7 +117,9 @@ def run_case(ctx, case, rec, d):
         rec.cls('sed-files-wav-ascending')
     if case.get('layout', 'flat') != 'flat':
         rec.cls('seds-in-subdirs-and-gz')
-    cfg = (n_wav, n_ap, n_models, case['perm'], case['sord'], case.get('layout', 'flat'))
+    if case.get('funit', 'mJy') != 'mJy':
+        rec.cls('seds-stored-in-erg/cm2/s')
+    cfg = (n_wav, n_ap, n_models, case['perm'], case['sord'], case.get('layout', 'flat'), case.get('funit', 'mJy'))
     positions = _positions(w_asc)
     windows = [(None, None)] + [(positions[i], positions[j]) for i in range(len(positions)) for j in range(i, len(positions))]
     windows = windows[case['wpart'][0]::case['wpart'][1]]
@@ -194,7 +205,7 @@ def run_case(ctx, case, rec, d):
                         bad = '%s: rows %r, parameter-table order is %r' % (fname, rn, table_order)
                         break
                     exp = np.array([[cell(names.index(nm), a, wi) for a in range(n_ap)] for nm in rn])
-                    if not (np.allclose(ff, exp, rtol=1e-12) and np.allclose(ee, exp / 8.0, rtol=1e-12)):
+                    if not (np.allclose(ff, exp, rtol=1e-11) and np.allclose(ee, exp / 8.0, rtol=1e-11)):
                         bad = '%s (wavelength %r): fluxes %r, stored %r' % (fname, fw, ff[0], exp[0])
                         break
                     if ap is not None and (fa is None or not np.allclose(fa, ap)):
